@@ -82,6 +82,9 @@ var lcReasons = map[string][]string{
 	// Close(false) with packets still buffered and a client that never polls again: the buffered close
 	// fires after the close timeout, or the heartbeat gives up first
 	"appCloseNoPoll": {"forced close", "ping timeout"},
+	// the same with nothing buffered and a heartbeat that is further away than the transport's close timeout: the
+	// close the application asked for completes by that timeout and is reported as such
+	"appCloseNoPollEmpty": {"forced close"},
 	// a write of the server fails (broken pipe / the peer stopped the receiving side of its stream) before its
 	// reader has noticed anything
 	"writeFail": {"transport error", "transport close"},
@@ -113,6 +116,7 @@ type lcSess struct {
 }
 
 type lcWorld struct {
+	longHB      bool // heartbeat (40s + 25s) further away than the polling transport's close timeout (30s)
 	w           *World
 	sess        map[int]*lcSess
 	created     map[string]bool
@@ -140,6 +144,9 @@ var stateRank = map[string]int{"opening": 0, "open": 1, "closing": 2, "closed": 
 
 func genLC(rt *rapid.T, gates bool, known map[string]bool, col *Collector) []lcStep {
 	var steps []lcStep
+	if rapid.IntRange(0, 4).Draw(rt, "longHeartbeat") == 0 {
+		steps = append(steps, lcStep{Kind: "longHeartbeat"})
+	}
 	nsess := 0
 	alive := map[int]bool{}
 	n := rapid.IntRange(2, 14).Draw(rt, "nsteps")
@@ -458,6 +465,15 @@ func (lw *lcWorld) causeFn(s *lcSess, cause string) func() {
 				lw.w.AppSend(s.sr, msgT("buffered 2"), nil, false, 0)
 			} else {
 				lw.stats["close-with-empty-buffer-and-no-further-poll"] = true
+				if lw.longHB {
+					lw.stats["close-timeout-before-the-heartbeat"] = true
+					for k := len(s.causes) - 1; k >= 0; k-- {
+						if s.causes[k] == "appCloseNoPoll" {
+							s.causes[k] = "appCloseNoPollEmpty"
+							break
+						}
+					}
+				}
 			}
 			s.sr.Sock.Close(false)
 		}
@@ -782,6 +798,11 @@ func runLC(steps []lcStep) (*lcWorld, bubbleResult) {
 		o.SetTransports(types.NewSet("polling", "websocket", "webtransport"))
 		o.SetPingInterval(lcPingInterval)
 		o.SetPingTimeout(lcPingTimeout)
+		if len(steps) > 0 && steps[0].Kind == "longHeartbeat" {
+			lw.longHB = true
+			o.SetPingInterval(40 * time.Second)
+			o.SetPingTimeout(25 * time.Second)
+		}
 		w := NewWorld(o)
 		lw.w = w
 		// sessions that die before they are announced still count as created for the registry
@@ -879,7 +900,11 @@ func runLC(steps []lcStep) (*lcWorld, bubbleResult) {
 				f1()
 				if st.Cause == "silence" {
 					// the heartbeat expires on its own: advance to the deadline without servicing this session
-					lw.advance(lcPingInterval + lcPingTimeout + time.Second)
+					if lw.longHB {
+						lw.advance(66 * time.Second)
+					} else {
+						lw.advance(lcPingInterval + lcPingTimeout + time.Second)
+					}
 				}
 				Settle()
 				if lw.parked(gp) {
@@ -1149,7 +1174,11 @@ func runLC(steps []lcStep) (*lcWorld, bubbleResult) {
 			}
 		}
 		// run every started close to completion, keep healthy sessions serviced
-		lw.advance(45 * time.Second)
+		if lw.longHB {
+			lw.advance(70 * time.Second)
+		} else {
+			lw.advance(45 * time.Second)
+		}
 		for i := 0; i < len(lw.sess); i++ {
 			s := lw.sess[i]
 			if s == nil || s.sr == nil {
@@ -1232,7 +1261,7 @@ func TestC03Lifecycle(t *testing.T) {
 			}
 		})
 	}
-	req := []string{"server-write-fails-before-its-reader-notices", "peer-stops-reading", "upgrade-packet-inside-the-close-listener", "closed-inside-the-connection-listener", "session-closed-inside-Send", "carrier.polling", "carrier.websocket", "carrier.webtransport", "two-causes-same-instant", ">=2-causes-on-one-session", "activity-after-close", "stayed-open", "server-close"}
+	req := []string{"close-timeout-before-the-heartbeat", "server-write-fails-before-its-reader-notices", "peer-stops-reading", "upgrade-packet-inside-the-close-listener", "closed-inside-the-connection-listener", "session-closed-inside-Send", "carrier.polling", "carrier.websocket", "carrier.webtransport", "two-causes-same-instant", ">=2-causes-on-one-session", "activity-after-close", "stayed-open", "server-close"}
 	if !known[sigDoubleClose] {
 		req = append(req, "second-cause-inside-OnClose-window")
 	}
